@@ -267,7 +267,10 @@ def mux_prop(pid, names, thorough_only=(), notes=None, extra_unwindset=(), **kw)
         tier = "thorough" if (n in thorough_only or heavy or n.startswith("c10_connect_")) else "quick"
         mem, tmo = heavy if heavy else ((26, 2400) if n.startswith("c10_connect_") else (None, None))
         hs.append(H(n, tier=tier, profiles=("dev", "rel"), unwindset=list(extra_unwindset) + vec_loops(2), mem_gb=mem, timeout=tmo, note=(notes or {}).get(n, kw.get("note", ""))))
-    d = dict(kind="mux", module_of=mux_module_of, harnesses=hs, trusted=MUX_TRUST)
+    # native replay of in-crate harnesses: real bytes / hashbrown / parking_lot / futures /
+    # rand; the tokio model (virtual clock, inspectable channels) and the tracing model
+    # (scheduling points) stay, because the harness files use their model-only hooks
+    d = dict(kind="mux", module_of=mux_module_of, harnesses=hs, trusted=MUX_TRUST, native_shims=["tokio", "tracing", "tracing-attributes"])
     d.update({k: v for k, v in kw.items() if k != "note"})
     return d
 
@@ -339,14 +342,13 @@ PROPS["C12"] = mux_prop(
              "a change that removes the log lines removes scheduling points: the run then fails its witness (no harness satisfied 'ran at a scheduling point inside')"],
     assumptions=["futures_util::task::AtomicWaker is executed for real (sequentially)"],
     require_covers_any=[r"the other party ran at a scheduling point inside"],
-    native_shims=["tracing", "tracing-attributes"],
     explanation="Sequentialised two-party race: if the poll returns Pending although credit arrived or the stream was closed at any chosen point, a wake-up must have been delivered; final credit = grants - permissions.")
 
 PROPS["C16"] = mux_prop(
     "C16", pick("c16_"), thorough_only={"c16_history_i1_t3", "c16_history_i1_tnone", "c16_answered_within_t_i2_t3_p3"},
     # per poll the ping loop starts its body at most twice (tick ready -> ping -> tick pending)
     extra_unwindset=[(r"schedule_ping_task", 3)],
-    native_shims=["tokio"],   # the virtual clock has no real counterpart
+
     note="real schedule_ping_task under the virtual clock; pong history chosen by the solver",
     bounds=dict(pairs="(I,T) in seconds: (1,1), (2,3), (1,3), (2,1 -> clamped), (1,none), (none,none), (none,5); clamp rule: all values up to 1e9 s",
                 ticks="3..5 ticks; after each tick the peer answers or not, at a symbolic instant in (tick, tick+I]", clock="virtual, milliseconds; ticks exactly on time (no scheduler jitter)"),
